@@ -118,10 +118,32 @@ def socket_path(ctx, res):
         a = rng.randrange(1, L - 1)
         b = rng.randrange(a, L)
         plans.append([a, b - a, L - b] if b > a else [a, L - a])
-    for plan in plans:
+    # the same on a connection that has not greeted yet: the stream starts with the greeting, and the cuts fall inside it
+    from skepticoin.networking.messages import HelloMessage, SupportedVersion
+    from ipaddress import IPv6Address
+    hello = node.frame(MessageHeader(0, 1, 0, 7), HelloMessage([SupportedVersion(0)], IPv6Address(bytes(16)), 0,
+                                                                IPv6Address(bytes(16)), 2500, 987654321, b"x"))
+    H = len(hello)
+    fresh_plans = [[1], [3], [4], [5], [8], [9], [H - 1], [H], [H + 1], [H + 7], [1, 1], [4, 4], [H - 1, 1], [2, H]]
+    for _ in range(ctx.scale(6, 40)):
+        fresh_plans.append(sorted(rng.sample(range(1, H + 30), rng.choice([1, 2, 3]))))
+    tagged = [(False, p_) for p_ in plans] + [(True, cuts_) for cuts_ in fresh_plans]
+    stream_greeted = stream
+    for fresh, plan in tagged:
+        if fresh:
+            stream = hello + stream_greeted
+            L = len(stream)
+            points = [0] + [x for x in plan if 0 < x < L] + [L]
+            plan = [b_ - a_ for a_, b_ in zip(points, points[1:])]
+        else:
+            stream = stream_greeted
+            L = len(stream)
         plan = [x for x in plan if x > 0]
         rn = node.RealNode(tree.cs, tree.blocks)
-        c = rn.add_peer(active=True)
+        c = rn.add_peer(active=not fresh)
+        if fresh:
+            rn.peers[c].hello_sent = True
+            res.count("socket_path_ungreeted_connection")
         peer, other = rn.peers[c], rn.sockets[c]
         other.setblocking(True)
         pos, dropped = 0, False
